@@ -570,8 +570,13 @@ func Queue[V any](arguments ...any) col.QueueLike[V] {
 	case sequence != nil:
 		queue = class.MakeFromSequence(sequence)
 	case len(source) > 0:
-		queue = class.Make()
 		var collection = notation.ParseSource(source).(col.Sequential[any])
+		// Make room for all of the values so that adding them cannot block.
+		capacity = class.DefaultCapacity()
+		if uint(collection.GetSize()) > capacity {
+			capacity = uint(collection.GetSize())
+		}
+		queue = class.MakeWithCapacity(capacity)
 		// Convert the values to their real type.
 		var iterator = collection.GetIterator()
 		for iterator.HasNext() {
